@@ -16,6 +16,36 @@ def _b(x):
     return "true" if x else "false"
 
 
+
+def scan_cap(src, fn_name="complete_prefix_len"):
+    """does the tail-repair scan refuse record lengths the writer can produce?  Returns the Gallina
+    term of an `option N`: None = every u32 length is followed; Some c = lengths above c are treated
+    as a torn tail (Some 0 = a cap is there but its value could not be read)."""
+    _, body = find_fn(src, fn_name)
+    caps = []
+    for m in re.finditer(r"\blen\s*(>=|>)\s*([A-Za-z_][A-Za-z0-9_:]*|[0-9][0-9_]*)", body):
+        rhs = m.group(2)
+        if rhs in ("file_len",):
+            continue
+        val = None
+        if rhs[0].isdigit():
+            val = int(rhs.replace("_", ""))
+        else:
+            name = rhs.split("::")[-1]
+            cm = re.search(r"const\s+%s\s*:\s*\w+\s*=\s*([^;]+);" % re.escape(name), src)
+            if cm:
+                try:
+                    val = int(eval(cm.group(1).replace("_", ""), {"__builtins__": {}}, {}))
+                except Exception:
+                    val = None
+        caps.append(0 if val is None else val)
+    # a comparison of u64::from(len) / len as u64 against something other than the file length
+    for m in re.finditer(r"(u64::from\(len\)|len\s+as\s+u64)\s*(>=|>)\s*([A-Za-z_][A-Za-z0-9_:]*)", body):
+        if m.group(3) != "file_len":
+            caps.append(0)
+    return "None" if not caps else "(Some %d)" % min(caps)
+
+
 def generate(repo):
     items = {}
     tail_repair = first_wins = scan_live = False
@@ -59,6 +89,12 @@ def generate(repo):
         items["TxComplete before lock release"] = "translated"
     except Exception as ex:
         items["TxComplete before lock release"] = "miss:%s" % ex
+    cap = "None"
+    try:
+        cap = scan_cap(strip_comments(read(repo, "tensor_chain/src/tx_wal.rs")))
+        items["TxWal tail-repair scan follows every record length"] = "translated"
+    except Exception as ex:
+        items["TxWal tail-repair scan follows every record length"] = "miss:%s" % ex
     text = HEADER + (
         "From NV.Common Require Import Base.\n\n"
         "(* tensor_chain/src/tx_wal.rs TxWal::open_with_config *)\n"
@@ -70,4 +106,6 @@ def generate(repo):
         "(* commit/abort: TxComplete is logged before any lock is released *)\n"
         "Definition gen_complete_before_release : bool := %s.\n" % (_b(tail_repair), _b(scan_live), _b(first_wins), _b(complete_first))
     )
+    text += ("(* TxWal::complete_prefix_len: a record length above this bound is treated as a torn tail (None = no bound) *)\n"
+             "Definition gen_tx_scan_cap : option N := %s.\n" % cap)
     return text, items
